@@ -21,8 +21,8 @@ func init() {
 	core.Register(&core.Check{
 		ID: "C40", Level: "other", Title: "VBFT participant selection is well formed",
 		Technique: "guard dominance inside the selection loop (start-relative), value lineage of the returned slice, argument identity across sibling calls, effect reachability for determinism",
-		Explain: "Decided on the SSA of consensus/vbft. buildParticipantConfig: the three sibling calls of calcParticipantPeers all take the SAME chain configuration — the chainCfg parameter that the size checks read (a selection computed from another configuration is neither drawn from the requested table nor reproducible by peers) — with the constant windows [0,P), [P,P+E), [P+E,P+E+Cm); a configuration is returned only after len(Proposers) >= C+1, len(Endorsers) >= 2C, len(Committers) >= 2C with C = chainCfg.C, Proposers truncated to C+1, Vrf = getParticipantSelectionSeed(block) tested non-nil. calcParticipantPeers: every element appended to the result is the value of calcParticipant(cfg.Vrf, chain.PosTable, uint32(i)); the append is dominated, within the iteration, by id != MaxUint32, by a miss in the already-selected set and (for endorser/committer windows) by a miss in the leading-proposer set, and is followed in the same block by recording id as selected (no duplicates); the leading-proposer set is filled from cfg.Proposers only; every returned slice is the empty literal or this append lineage (drawn from the table). calcParticipant: every non-sentinel result is dposTable[x % len(dposTable)] and is dominated by k < 512 (index into the 64-byte seed in range). Determinism: the functions reachable from the three selection functions and getParticipantSelectionSeed contain no wall-clock, random, environment or scheduler call, no go/select, and no range over a map (the two sets are membership-only). NOT decided: fairness of the draw, termination for adversarial tables, and that every node holds the same chain configuration (ledger state).",
-		Run: runC40,
+		Explain:   "Decided on the SSA of consensus/vbft. buildParticipantConfig: the three sibling calls of calcParticipantPeers all take the SAME chain configuration — the chainCfg parameter that the size checks read (a selection computed from another configuration is neither drawn from the requested table nor reproducible by peers) — with the constant windows [0,P), [P,P+E), [P+E,P+E+Cm); a configuration is returned only after len(Proposers) >= C+1, len(Endorsers) >= 2C, len(Committers) >= 2C with C = chainCfg.C, Proposers truncated to C+1, Vrf = getParticipantSelectionSeed(block) tested non-nil. calcParticipantPeers: every element appended to the result is the value of calcParticipant(cfg.Vrf, chain.PosTable, uint32(i)); the append is dominated, within the iteration, by id != MaxUint32, by a miss in the already-selected set and (for endorser/committer windows) by a miss in the leading-proposer set, and is followed in the same block by recording id as selected (no duplicates); the leading-proposer set is filled from cfg.Proposers only; every returned slice is the empty literal or this append lineage (drawn from the table). calcParticipant: every non-sentinel result is dposTable[x % len(dposTable)] and is dominated by k < 512 (index into the 64-byte seed in range). Determinism: the functions reachable from the three selection functions and getParticipantSelectionSeed contain no wall-clock, random, environment or scheduler call, no go/select, and no range over a map (the two sets are membership-only). NOT decided: fairness of the draw, termination for adversarial tables, and that every node holds the same chain configuration (ledger state).",
+		Run:       runC40,
 	})
 }
 
